@@ -32,7 +32,9 @@ def handleL14 (toks : List String) : String :=
   match toks with
   | [line] =>
     match parseText line with
-    | some line => "M " ++ renderOutcome (Cmd.parseLine line)
+    | some line =>
+      "M " ++ renderOutcome (Cmd.parseLine line) ++
+        (if validLine line then " ;; S " ++ renderOutcome (CmdGrammar.parseLine line) else "")
     | none => "bad-request"
   | _ => "bad-request"
 
@@ -42,8 +44,11 @@ def handleR14 (toks : List String) : String :=
   | [arg, inp] =>
     let arg? : Option (Option (List Char)) := if arg == "N" then some none else (parseText arg).map some
     match arg?, parseBytes inp with
-    | some arg, some inp =>
-      "M " ++ runSession (Cmd.Reader.from arg (inp.map UInt8.ofNat)) #[]
+    | some arg, some inpBytes =>
+      "M " ++ runSession (Cmd.Reader.from arg (inpBytes.map UInt8.ofNat)) #[] ++
+        (match parseText inp with
+         | some b => " ;; S " ++ specSession arg b
+         | none => "")          -- standard input that is not UTF-8: outside the property (I9)
     | _, _ => "bad-request"
   | _ => "bad-request"
 
